@@ -631,6 +631,10 @@ class DestHandler:
         self._reset_internal(False)
 
     def _handle_fd_without_previous_metadata(self, first_pdu: bool, fd_pdu: FileDataPdu) -> None:
+        if self._params.fp.file_size_eof is not None:
+            # The EOF PDU was already received: the whole file is tracked as lost and will be
+            # re-requested by the deferred lost segment procedure. Do not shrink that range.
+            return
         self._params.fp.progress = fd_pdu.offset + len(fd_pdu.file_data)
         if len(fd_pdu.file_data) > 0:
             start = fd_pdu.offset
